@@ -116,22 +116,31 @@ fn openat2_resolve<Fd: AsFd, P: AsRef<Path>>(
     let rflags =
         libc::RESOLVE_BENEATH | libc::RESOLVE_NO_MAGICLINKS | libc::RESOLVE_NO_XDEV | rflags.bits();
 
-    syscalls::openat2(
-        root,
-        path,
-        &OpenHow {
-            flags: oflags,
-            resolve: rflags,
-            ..Default::default()
-        },
-    )
-    .map_err(|err| {
-        ErrorImpl::RawOsError {
-            operation: "open subpath in procfs".into(),
-            source: err,
+    let how = OpenHow {
+        flags: oflags,
+        resolve: rflags,
+        ..Default::default()
+    };
+
+    // openat2(2) can fail with -EAGAIN if a ".." component raced with a rename
+    // or mount anywhere on the system, so (like the regular openat2 resolver)
+    // try a couple of times before giving up.
+    for _ in 0..16 {
+        match syscalls::openat2(&root, path.as_ref(), &how) {
+            Ok(file) => return Ok(file),
+            Err(err) => match err.root_cause().raw_os_error() {
+                Some(libc::EAGAIN) => continue,
+                _ => Err(ErrorImpl::RawOsError {
+                    operation: "open subpath in procfs".into(),
+                    source: err,
+                })?,
+            },
         }
-        .into()
-    })
+    }
+
+    Err(ErrorImpl::SafetyViolation {
+        description: "racing filesystem changes caused openat2 to abort".into(),
+    })?
 }
 
 /// `O_PATH`-based implementation of [`ProcfsResolver`].
